@@ -125,7 +125,8 @@ if [ ! -x "$OUT" ]; then
   ( cd "$T/o" && { objdump -d --no-show-raw-insn *.o | grep -oE '\$0x[0-9a-f]{5,16}' | tr -d '$'; \
       objdump -s -j .rodata -j .rodata.cst4 -j .rodata.cst8 -j .rodata.cst16 *.o 2>/dev/null | awk '/^ [0-9a-f]+ /{for(i=2;i<=5;i++) if (length($i)==8) print "0x" substr($i,7,2) substr($i,5,2) substr($i,3,2) substr($i,1,2)}'; } | grep -E '^0x[0-9a-f]+$' | sort -u | head -400 ) > "$T/dict.txt" || true
   # symbol report of the untouched objects (C19 side check) before any renaming
-  ( cd "$T/o" && for f in *.o; do nm "$f" | awk -v f="$f" '$2 ~ /^[bBdDsScC]$/ {print f, $2, $3}'; done ) > "$T/writable_symbols.txt" || true
+  # (by section, not by nm letter: .data.rel.ro* holds relocated constants of position-independent builds and is read-only at run time)
+  ( cd "$T/o" && for f in *.o; do nm --format=sysv "$f" 2>/dev/null | awk -F'|' -v f="$f" '{gsub(/ /,"",$1); gsub(/ /,"",$3); gsub(/ /,"",$4); gsub(/ /,"",$7)} $4=="OBJECT"||$4=="TLS"||$4=="COMMON" { sec=$7; if (sec ~ /^\.data\.rel\.ro/) next; if (sec ~ /^\.(data|bss|tdata|tbss|sdata|sbss)/ || sec=="*COM*") print f, $3, $1, sec }'; done ) > "$T/writable_symbols.txt" || true
   # seams at the libc boundary: OS entropy/file calls and the allocator, in every library object
   for f in "$T"/o/*.o; do
     objcopy --redefine-sym getrandom=verif_os_getrandom --redefine-sym getentropy=verif_os_getentropy --redefine-sym syscall=verif_os_syscall \
